@@ -245,15 +245,56 @@ class Boom(Exception):
     hgmon_injected = True
 
 
+def returned_object_kinds(ctx):
+    """What a node function RETURNS must mean the same under both runners: a generator function, a plain function
+    that returns a generator object, a list, a tuple, None."""
+    import asyncio
+
+    from hypergraph import AsyncRunner, FunctionNode, Graph, SyncRunner
+
+    def genfunc(n):
+        yield from range(n)
+
+    kinds = {
+        "generator-function": genfunc,
+        "plain-function-returning-generator-object": lambda n: (i * 2 for i in range(n)),
+        "plain-function-returning-list": lambda n: [i for i in range(n)],
+        "plain-function-returning-range": lambda n: range(n),
+        "plain-function-returning-none": lambda n: None,
+    }
+    for label, f in kinds.items():
+        for n in (0, 1, 3):
+            def use(g):
+                return (type(g).__name__, list(g) if g is not None else None)
+
+            if label.startswith("plain"):
+                f.__name__ = "mk"
+            g = Graph([FunctionNode(f, name="mk", output_name="g"), FunctionNode(use, name="use", output_name="s")], name="kinds")
+            rs = SyncRunner().run(g, {"n": n})
+            ra = asyncio.run(AsyncRunner().run(g, {"n": n}))
+            ctx.obs["returned_kind_pairs"] += 1
+            ctx.obs["executions_compared"] += 1
+            vs, va = {"status": rs.status.value, "s": rs.values.get("s"), "g": type(rs.values.get("g")).__name__}, {"status": ra.status.value, "s": ra.values.get("s"), "g": type(ra.values.get("g")).__name__}
+            if vs != va:
+                ctx.violation("C02:values", f"{label} (n={n}): sync run gives {vs}, async run gives {va}", {"program": "returned-object-kinds", "kind": label, "n": n})
+    ctx.case({"directed": "returned-object-kinds"}, True)
+
+
 def run(ctx):
     n = 60 if ctx.tier == "quick" else 600
     if ctx.replay:
         c = ctx.replay["case"]
+        if c.get("program") == "returned-object-kinds":
+            returned_object_kinds(ctx)
+            ctx.case("replay2")
+            return
         fam = {"family": c["family"], "unique_outputs": False}
         _one(ctx, fam, c["spec"], c["inputs"], {}, c.get("fail"))
         ctx.case("replay1")
         ctx.case("replay2")
         return
+    if ctx.shard[0] == 0:
+        returned_object_kinds(ctx)
     for i in range(n):
         fam = families.pick(ctx.rng, ["dag", "dag-fallback", "gated", "loop", "waitdag", "waitdag", "rewait", "lateclosed"])
         spec, inputs, kw = fam["spec"], fam["inputs"], fam.get("kw", {})
